@@ -55,8 +55,9 @@ def repo_files():
 
 def verif_files(root):
     out = []
-    for pat in ('coq/theories/*.v', 'coq/props/*.v', 'coq/_CoqProject', 'tools/*.py', 'model/*.ml', 'harness/src/*.rs',
-                'harness/Cargo.toml', 'harness/conv/src/*.rs', 'harness/conv/Cargo.toml'):
+    for pat in ('coq/theories/*.v', 'coq/theories/conc/*.v', 'coq/props/*.v', 'coq/_CoqProject', 'tools/*.py', 'model/*.ml',
+                'harness/src/*.rs', 'harness/src/bin/*.rs', 'harness/Cargo.toml', 'harness/conv/src/*.rs', 'harness/conv/Cargo.toml',
+                'harness/loomh/src/*.rs', 'harness/loomh/Cargo.toml'):
         out += glob.glob(os.path.join(root, pat))
     return out
 
